@@ -52,7 +52,7 @@ CHECKS = {
         "category": "fault_enumeration",
         "text": "Fault slice of C01: file-system and network fault sequences (errno on open/stat, read errors after n bytes, torn / flipped / garbage content, URL refusal, HTTP errors, timeouts, resets and truncated bodies) injected at an interposed I/O seam during real parses of generated error-laden projects (with static conditions created for real: missing / directory / undecodable / self-including / cyclic include targets, broken inventories, over-long and odd link paths) through both front ends. About a fifth of the workloads get the complete single-fault sweep (every faultable call x every applicable fault kind); the others get 3-6 sampled plans of 1-3 faults. Oracle: no exception escapes (I1), a document comes back (I2), the call terminates (I3), a delivered error fault on an include read or inventory fetch is reported (I4). The recording pass of every workload is a fault-free evaluation held to I1-I3. The input x configuration factor of C01 is only sampled by the workload generator and is not what this check claims.",
         "design_ref": "DESIGN.md §4",
-        "note": "Only calls issued by myst_parser frames are faulted (include read, inventory fetch, Sphinx link probe); calls made by docutils/Sphinx on MyST's behalf or by hosted rST directives are traced but never faulted. docutils halt_level is raised to 5 so that docutils' own abort-by-configuration is not mistaken for an escape.",
+        "note": "Only calls issued by myst_parser frames are faulted (include read, inventory fetch, Sphinx link probe - any new call site is picked up by the frame classification); calls made by docutils/Sphinx on MyST's behalf or by hosted rST directives are traced but never faulted. docutils halt_level is raised to 5 so that docutils' own abort-by-configuration is not mistaken for an escape. Exceptions raised inside a docutils/Sphinx writer, in the builder's per-document write/finishing steps or in Sphinx's toctree adapter (all after reading and resolving; shown to hit rST sources identically) are counted, not reported. I4 is skipped where the configuration suppresses the report (suppress_warnings, report_level). One genuine defect is recorded as a known finding rather than repaired (header-only Markdown table without tbody -> StopIteration in Sphinx's latex post-transform; the repair would change output an existing fixture pins): the check prints KNOWN-FINDING for it and exits 0.",
         "technique": "deterministic simulation with fault injection: seeded and per-workload exhaustive single-fault enumeration at an interposed open/stat/read/urlopen seam",
     },
 }
